@@ -217,10 +217,11 @@ UNITS['matchers'] = {
         "PM_ANYT": "13param_matchesINS_17predicate_matcherINS_7lambdas13any_predicateE",
         "PM_VALUE": "13param_matchesIiSt17reference_wrapperIiEE",
         "PM_MEMBER": "13param_matchesINS_17predicate_matcherINS_4impl17member_is_matcherI.*6vp_absILi1EEE",
-        "PM_RE": "13param_matchesINS_17predicate_matcherINS_7lambdas11regex_checkE"
+        "PM_RE": "13param_matchesINS_17predicate_matcherINS_7lambdas11regex_checkE.*St17reference_wrapperIPKcEE",
+        "PM_RE_STR": "13param_matchesINS_17predicate_matcherINS_7lambdas11regex_checkE.*St17reference_wrapperISB_EE"
 },
 }
-for e in ('m_eq', 'm_ne', 'm_lt', 'm_le', 'm_gt', 'm_ge', 'm_eq_typed', 'm_lt_typed', 'm_value', 'm_wildcard', 'm_not', 'm_deref', 'm_any_of', 'm_all_none_of', 'm_any_of_value', 'm_member_is', 'm_re'):
+for e in ('m_eq', 'm_ne', 'm_lt', 'm_le', 'm_gt', 'm_ge', 'm_eq_typed', 'm_lt_typed', 'm_value', 'm_wildcard', 'm_not', 'm_deref', 'm_any_of', 'm_all_none_of', 'm_any_of_value', 'm_member_is', 'm_re', 'm_re_string'):
     ob(name='matchers.%s' % e[2:], kind='FC+', props=['C10'], unit='matchers', harness='h_matchers.c', entry=e, unwind=5,
        bound='none: loop-free, full 32-bit argument and operand domain; combinators over abstract operand matchers (arity <= 3 as instantiated)')
 LEVELS['C10'] = 'proof'
@@ -294,8 +295,10 @@ UNITS['ranges'] = {
     'roots': {
         "RG_IS3": "13param_matchesINS_17predicate_matcherINS_4impl19is_elements_checkerE.*vp_absILi1EEENS7_ILi2EEENS7_ILi3EEEEEEJS8_S9_SA_EEESt17reference_wrapperIA3_iEE",
         "RG_IS2": "13param_matchesINS_17predicate_matcherINS_4impl19is_elements_checkerE.*vp_absILi1EEENS7_ILi2EEEEEEJS8_S9_EEESt17reference_wrapperIA3_iEE",
-        "RG_STARTS2": "13param_matchesINS_17predicate_matcherINS_4impl28starts_with_elements_checkerE",
-        "RG_ENDS2": "13param_matchesINS_17predicate_matcherINS_4impl17ends_with_checkerE",
+        "RG_STARTS2": "13param_matchesINS_17predicate_matcherINS_4impl28starts_with_elements_checkerE.*vp_absILi1EEENS7_ILi2EEEEEEJS8_S9_EEE",
+        "RG_STARTS3": "13param_matchesINS_17predicate_matcherINS_4impl28starts_with_elements_checkerE.*NS7_ILi3EEEEEEJS8_S9_SA_EEE",
+        "RG_ENDS2": "13param_matchesINS_17predicate_matcherINS_4impl17ends_with_checkerE.*vp_absILi1EEENS7_ILi2EEEEEEJS8_S9_EEE",
+        "RG_ENDS3": "13param_matchesINS_17predicate_matcherINS_4impl17ends_with_checkerE.*NS7_ILi3EEEEEEJS8_S9_SA_EEE",
         "RG_ALL": "13param_matchesINS_17predicate_matcherINS_4impl20range_all_of_checkerE",
         "RG_ANY": "13param_matchesINS_17predicate_matcherINS_4impl20range_any_of_checkerE",
         "RG_NONE": "13param_matchesINS_17predicate_matcherINS_4impl21range_none_of_checkerE",
